@@ -32,3 +32,20 @@ Theorem C12_uni_close_callback_once_after_all_executors :
   forall M, (0 < M)%nat -> latch_run M M = repeat false (M - 1) ++ [true].
 Proof. exact latch_fires_exactly_once_at_the_last. Qed.
 Print Assumptions C12_uni_close_callback_once_after_all_executors.
+
+(* ---- Multi executors (model: Exec/MExec.v, compared with real Multis field by field) ---- *)
+From RM Require Import MExec.
+
+(* the log channel's old / new pair of executors: with sequential_transition, for every workload, split point and concurrency limit,
+   no new event starts before every old event has been fully processed *)
+Theorem C12_sequential_transition_orders_old_before_new :
+  forall limit n_old durs d_old d_new,
+    In d_old (old_run limit n_old durs) -> In d_new (new_run true limit n_old durs) -> (iend d_old <= istart d_new)%Z.
+Proof. exact sequential_transition_orders_old_before_new. Qed.
+Print Assumptions C12_sequential_transition_orders_old_before_new.
+
+(* the split neither drops nor duplicates an event *)
+Theorem C12_old_new_split_is_exact :
+  forall sequential limit n_old durs, (length (old_run limit n_old durs) + length (new_run sequential limit n_old durs) = length durs)%nat.
+Proof. exact old_new_split_is_exact. Qed.
+Print Assumptions C12_old_new_split_is_exact.
